@@ -615,11 +615,11 @@ def tier_configs(tier):
                 if list(perm) == sorted(perm):
                     continue
                 for cap in (2, 3, 4):
-                    if displacement(perm) < cap:
+                    if displacement(perm) < cap and (nmsg == 4 or rng.random() < 0.5):      # 5 messages: a seeded half of them
                         cs.append(dict(NMsg=nmsg, NSub=1, Cap=cap, Lazy=False, Drive=[True], Mode="perm", Perm=list(perm), Fut=[]))
                         if rng.random() < 0.1:
                             cs.append(dict(NMsg=nmsg, NSub=2, Cap=cap, Lazy=False, Drive=[True, True], Mode="perm", Perm=list(perm), Fut=[]))
-        budget = 6000
+        budget = 3000
     return cs, budget
 
 
